@@ -6,7 +6,7 @@ DRIVERS = ['pv_C29']
 THEOREMS = ['ParsecVerif.C29.binv_step', 'ParsecVerif.C29.C29_base_once', 'ParsecVerif.C29.C29_base_all_done',
             'ParsecVerif.C29.C29_base_null_needs_precondition',
             'ParsecVerif.C29.kinv_step', 'ParsecVerif.C29.C29_count', 'ParsecVerif.C29.C29_count_nonpositive',
-            'ParsecVerif.C29.dinv_step', 'ParsecVerif.C29.C29_trigger_once', 'ParsecVerif.C29.C29_nested_distinct',
+            'ParsecVerif.FutureDC.dinv_step', 'ParsecVerif.FutureDC.minv_step', 'ParsecVerif.C29.C29_trigger_once', 'ParsecVerif.C29.C29_nested_distinct',
             'ParsecVerif.C29.C29_dc_values', 'ParsecVerif.C29.C29_dc_one_value_per_class', 'ParsecVerif.C29.C29_parent_lock_mutex']
 IMPL = 'parsec/class/parsec_future.c (base/countable set, get), parsec/class/parsec_datacopy_future.c (get_or_trigger, _internal, set, nested futures)'
 ENGINE = 'lean-coop'
@@ -135,7 +135,7 @@ def gen_lines(ctx):
                 lines.append('case %d %s' % (k, ln)); k += 1
     for c in DFS_SMALL + ([] if ctx.quick else DFS_THOROUGH):
         lines.append('case %d %s | dfs %d' % (k, c, 1500 if ctx.quick else 150000)); k += 1
-    for _ in range(700 if ctx.quick else 12000):
+    for _ in range(450 if ctx.quick else 12000):
         lines.append('case %d %s | rng %d' % (k, gen_case(rng, big=rng.chance(1, 4)), rng.next() % 1000000007)); k += 1
     return lines
 
@@ -270,7 +270,7 @@ def run(ctx, res, lines=None):
             res.nontrivial(case)
     res.evaluations = nsched
     # free-running stress: the property oracle on the real code with 16 (and fewer) threads
-    rounds = 300 if ctx.quick else 6000
+    rounds = 150 if ctx.quick else 6000
     if replaying:
         rounds = 0
     if rounds:
